@@ -2,6 +2,10 @@
 
 #include <sstream>
 
+#include <fcntl.h>
+#include <sys/wait.h>
+#include <unistd.h>
+
 #include "optable.hpp"
 
 namespace sim
@@ -18,23 +22,12 @@ namespace sim
          return s == SET_BUF1 ? 1 : ( s == SET_BUF64 ? 64 : 3 );
       }
 
-      SetId pick_buffer_set( Rng& r )
+      // which stream configuration a job uses depends on seed, index and tier only (never on what a binary
+      // happens to contain); a binary skips the jobs it cannot run
+      SetId pick_buffer_set( Rng& r, bool thorough )
       {
-         SetId cand[ 3 ];
-         unsigned n = 0;
-         if( set_available( SET_BUF ) ) {
-            cand[ n++ ] = SET_BUF;
-         }
-         if( set_available( SET_BUF1 ) ) {
-            cand[ n++ ] = SET_BUF1;
-         }
-         if( set_available( SET_BUF64 ) ) {
-            cand[ n++ ] = SET_BUF64;
-         }
-         if( n == 0 ) {
-            return SET_MEM;
-         }
-         return cand[ r.below( n ) ];
+         const unsigned k = r.below( thorough ? 3 : 2 );
+         return k == 0 ? SET_BUF : ( k == 1 ? SET_BUF64 : SET_BUF1 );
       }
 
       bool is_buffer( SetId s )
@@ -45,7 +38,6 @@ namespace sim
 
    Job make_job( const std::string& check, std::uint64_t seed, std::uint64_t index, bool thorough )
    {
-      (void)thorough;
       const std::uint64_t s = mix64( seed, index );
       Rng r( mix64( s, 0x6a6f62 ) );
       Job j;
@@ -57,10 +49,10 @@ namespace sim
       if( check == "C02" ) {
          p.focus = r.chance( 3, 4 ) ? FOCUS_CONSUME : FOCUS_GENERAL;
          if( sub == 2 || sub == 6 ) {
-            j.set = pick_buffer_set( r );
+            j.set = pick_buffer_set( r, thorough );
             p.discard_shapes = r.chance( 1, 3 );
          }
-         else if( sub == 5 && set_available( SET_LAZY ) ) {
+         else if( sub == 5 ) {
             j.set = SET_LAZY;
          }
          if( sub == 3 || sub == 7 ) {
@@ -72,10 +64,10 @@ namespace sim
          const Focus fs[] = { FOCUS_GENERAL, FOCUS_CONSUME, FOCUS_LIMITS, FOCUS_STREAM };
          p.focus = fs[ r.below( 4 ) ];
          if( sub == 1 || sub == 4 || sub == 6 ) {
-            j.set = pick_buffer_set( r );
+            j.set = pick_buffer_set( r, thorough );
             p.discard_shapes = r.chance( 1, 2 );
          }
-         else if( sub == 3 && set_available( SET_LAZY ) ) {
+         else if( sub == 3 ) {
             j.set = SET_LAZY;
          }
          if( sub == 2 ) {
@@ -97,7 +89,7 @@ namespace sim
             p.site_mask = USER_SITES;
          }
          if( sub == 3 || sub == 7 ) {
-            j.set = pick_buffer_set( r );
+            j.set = pick_buffer_set( r, thorough );
             p.site_mask |= READER_SITE;
          }
       }
@@ -107,7 +99,7 @@ namespace sim
             p.max_faults = 3;
             p.site_mask = USER_SITES;
          }
-         if( ( sub == 3 || sub == 6 ) && set_available( SET_COV ) ) {
+         if( ( sub == 3 || sub == 6 ) ) {
             j.mode = MODE_COVERAGE;
             j.set = SET_COV;
             p.fixed_modes = true;
@@ -134,11 +126,11 @@ namespace sim
          j.mode = MODE_EQUAL;
          const Focus fs[] = { FOCUS_STREAM, FOCUS_STREAM, FOCUS_GENERAL, FOCUS_CONSUME, FOCUS_EXC };
          p.focus = fs[ r.below( 5 ) ];
-         if( sub == 7 && set_available( SET_LAZY ) ) {
+         if( sub == 7 ) {
             j.set = SET_LAZY;
          }
          else {
-            j.set = pick_buffer_set( r );
+            j.set = pick_buffer_set( r, thorough );
             p.discard_shapes = r.chance( 1, 2 );
          }
          if( sub == 2 || sub == 5 ) {
@@ -205,6 +197,17 @@ namespace sim
          return d;
       }
    }  // namespace
+
+   bool job_runnable( const Job& j )
+   {
+      if( !set_available( j.set ) ) {
+         return false;
+      }
+      if( ( j.mode == MODE_EQUAL || j.mode == MODE_UNGUARDED ) && !set_available( SET_MEM ) ) {
+         return false;
+      }
+      return true;
+   }
 
    Verdict judge( const Job& j )
    {
@@ -281,6 +284,49 @@ namespace sim
       }
       split( j.check, all, v );
       return v;
+   }
+
+   bool is_fatal_oracle( const std::string& oracle )
+   {
+      return oracle.size() > 4 && ( oracle.compare( oracle.size() - 7, 7, ".poison" ) == 0 || oracle.compare( oracle.size() - 6, 6, ".crash" ) == 0 );
+   }
+
+   int judge_forked( const Job& j, const std::string& oracle )
+   {
+      std::fflush( nullptr );
+      const pid_t pid = ::fork();
+      if( pid < 0 ) {
+         return 99;
+      }
+      if( pid == 0 ) {
+         const int nul = ::open( "/dev/null", O_WRONLY );
+         if( nul >= 0 ) {
+            ::dup2( nul, 1 );
+            ::dup2( nul, 2 );
+         }
+         const Verdict v = judge( j );
+         int code = 0;
+         for( const auto& x : v.own ) {
+            if( x.oracle == oracle ) {
+               code = 1;
+            }
+         }
+         for( const auto& x : v.foreign ) {
+            if( x.oracle == oracle ) {
+               code = 1;
+            }
+         }
+         ::_exit( code );
+      }
+      int st = 0;
+      if( ::waitpid( pid, &st, 0 ) < 0 ) {
+         return 99;
+      }
+      if( WIFEXITED( st ) ) {
+         const int c = WEXITSTATUS( st );
+         return ( c == 0 || c == 1 || c == 77 ) ? c : 99;
+      }
+      return 99;
    }
 
    std::string job_to_text( const Job& j )
